@@ -300,6 +300,22 @@ theorem minsert_cells_lawful (m : Aff) (i i' : Ins) (base : P2) (h : transformIn
     cellsAgree m base (cells i') (cells i) = true :=
   cells_transform m i i' base h hsx hsy
 
+/-- the SIGN of the MINSERT grid below a transformation (follow-up of session 3; seeded change C18-m6 is its negation): after
+    `Insert.transform(m)` the column spacing is the old one times the length `nx > 0` of the image of the reference's x-axis;
+    the row spacing is the old one times `ny > 0` and it CHANGES ITS SIGN - together with the y scale factor - exactly when
+    `m` is a reflection (negative determinant), for every rotation, scale and extrusion ±Z; with `minsert_cells_lawful`: at
+    any nesting depth, under every combination of reflections, the rows grow where the document puts them -/
+theorem minsert_spacing_sign (m : Aff) (i i' : Ins) (h : transformIns m i = .ok i') (hsx : i.sx ≠ 0) (hsy : i.sy ≠ 0)
+    (hd : UnitDir i.dir) :
+    ∃ nx ny : Rat, 0 < nx ∧ 0 < ny ∧ i'.sx = nx * i.sx ∧ i'.colSp = i.colSp * nx ∧
+      (0 < m.det → i'.sy = ny * i.sy ∧ i'.rowSp = i.rowSp * ny) ∧
+      (m.det < 0 → i'.sy = -(ny * i.sy) ∧ i'.rowSp = -(i.rowSp * ny)) ∧ m.det ≠ 0 :=
+  transformIns_spacing_sign m i i' h hsx hsy hd
+
+-- non-vacuity: a 3 x 1 grid (row spacing 5) below a reflection of the y-axis: the row spacing becomes -5
+#guard (transformIns ⟨1, 0, 0, -1, 0, 0⟩ ⟨p0, "INNER", ⟨0, 0⟩, 1, 1, ⟨1, 0⟩, false, [], 3, 1, 5, 0⟩).toOption.map
+  (fun j => (j.rowSp, j.sy)) = some (-5, -1)
+
 /-- session-2 theorem, now a corollary and extended to MINSERT grids anywhere: every acyclic closed document whose references
     are rotated by multiples of 90° with non-zero (possibly non-uniform, possibly negative) scale factors -/
 theorem draw_eq_spec_quarter (doc : Doc) (ctx : Ctx) (ents : List Ent) (hd : DocQuarter doc) (he : EntsQuarter ents)
@@ -826,6 +842,55 @@ def hIns : Ins := ⟨{ p0 with handle := 77 }, "INNER", ⟨0, 0⟩, 1, 1, ⟨1, 
 #guard (drawLayout wDoc wCtx [.ins hIns]).toOption.map (fun r => r.1.map (fun pr => (pr.kind, pr.handle))) =
   some [(.attrib, 78), (.line, 77)]
 
+/-! ## the pipeline stage between front end and backend (follow-up of session 3) -/
+
+/-- `RenderPipeline2d.get_backend_properties`: the colour cache is transparent - whatever was drawn before in the same rendering,
+    every primitive gets the colour policy applied to ITS OWN resolved colour, alpha included (seeded change C18-m4 keys the
+    cache by the RGB part only and is the negation of this statement); the cache stays consistent -/
+theorem color_cache_transparent (f : Color → Color) (cache : List (Color × Color)) (ps : List Prim) (hc : CacheOk f cache) :
+    (pipelineColors f cache ps).1 = ps.map (fun p => { p with color := f p.color }) ∧
+    CacheOk f (pipelineColors f cache ps).2 :=
+  pipelineColors_ok f ps cache hc
+
+/-- one rendering: the backend receives, primitive by primitive, the colour policy of the resolved colour; everything else
+    (layer, pen, lineweight, handle, coordinates, order, number) is untouched -/
+theorem backend_stage_pointwise (pol : ColorPolicy) (custom : Color) (gray : Nat → Nat) (ps : List Prim) :
+    backendStage pol custom gray ps = ps.map (fun p => { p with color := applyColorPolicy pol custom gray p.color }) :=
+  (pipelineColors_ok _ ps [] (by intro p hp; simp at hp)).1
+
+/-- the colour policies: COLOR is the identity; every policy except CUSTOM keeps the alpha of the entity; CUSTOM replaces
+    colour and alpha by `custom_fg_color`; SWAP_BW exchanges exactly black and white -/
+theorem color_policy_rules (pol : ColorPolicy) (custom : Color) (gray : Nat → Nat) (c : Color) :
+    applyColorPolicy .color custom gray c = c ∧
+    (pol ≠ .custom → (applyColorPolicy pol custom gray c).alpha = c.alpha) ∧
+    applyColorPolicy .custom custom gray c = custom ∧
+    (c.rgb ≠ 0 → c.rgb ≠ 0xFFFFFF → applyColorPolicy .swapBW custom gray c = c) := by
+  refine ⟨rfl, ?_, rfl, ?_⟩
+  · intro h; cases pol <;> first | rfl | exact absurd rfl h
+  · intro h1 h2; cases c; simp_all [applyColorPolicy]
+
+/-- background policy → foreground colour (what ACI 7 / BYLAYER-7 / layout BYBLOCK resolve to): white on the dark backgrounds
+    (modelspace default, BLACK, MODELSPACE, a dark custom colour), black otherwise (paperspace default, WHITE, PAPERSPACE, OFF) -/
+theorem layout_fg_rules (customDark : Bool) :
+    layoutFg .default true customDark = 0xFFFFFF ∧ layoutFg .default false customDark = 0 ∧
+    (∀ isMsp, layoutFg .white isMsp customDark = 0 ∧ layoutFg .black isMsp customDark = 0xFFFFFF ∧
+      layoutFg .paperspace isMsp customDark = 0 ∧ layoutFg .modelspace isMsp customDark = 0xFFFFFF ∧
+      layoutFg .off isMsp customDark = 0 ∧ layoutFg .custom isMsp customDark = (if customDark then 0xFFFFFF else 0)) := by
+  refine ⟨rfl, rfl, fun isMsp => ⟨rfl, rfl, rfl, rfl, rfl, ?_⟩⟩
+  cases customDark <;> rfl
+
+/-- 3DFACE (fix bb5ad742d): hidden by its invisible flag and by the state of its resolved layer like every other entity,
+    and additionally when all four edges are invisible -/
+theorem face3d_hidden_rules (ctx : Ctx) (allEdgesHidden : Bool) (key : String) (e : EProps) :
+    (allEdgesHidden = true → resolveVisibleFace ctx allEdgesHidden key e = false) ∧
+    (e.invisible = true → resolveVisibleFace ctx allEdgesHidden key e = false) ∧
+    (∀ lp, ctx.lookup key = some lp → lp.visible = false → resolveVisibleFace ctx allEdgesHidden key e = false) ∧
+    (allEdgesHidden = false → resolveVisibleFace ctx allEdgesHidden key e = resolveVisible ctx false false key e) := by
+  refine ⟨fun h => by simp [resolveVisibleFace, h], fun h => ?_, fun lp h1 h2 => ?_, fun h => by simp [resolveVisibleFace, h]⟩
+  · cases allEdgesHidden <;> simp [resolveVisibleFace, resolveVisible, h]
+    cases ctx.lookup key <;> simp
+  · cases allEdgesHidden <;> simp [resolveVisibleFace, resolveVisible, h1, h2]
+
 /-! ## ties to the constants of the live modules -/
 theorem tie_constants :
     Gen.RenderTables.BYLAYER = BYLAYER ∧ Gen.RenderTables.BYBLOCK = BYBLOCK ∧ Gen.RenderTables.BYOBJECT = BYOBJECT ∧
@@ -899,6 +964,36 @@ theorem tie_traversal_shape :
     Gen.RenderShape.layoutBody = ["if layout_properties is not None", "call self.set_background", "assign self.parent_stack = []",
       "assign handle_mapping = call list", "if handle_mapping", "if finalize"] ∧
     Gen.RenderShape.layoutOrdered = "reorder.ascending(layout, handle_mapping)" ∧ Gen.RenderShape.layoutPlain = "layout" := by
+  decide +kernel
+
+
+/-- AST ties of the follow-up (every run, from the current pipeline.py / ellipse.py / insert.py / explode.py / properties.py):
+    the colour cache is looked up and filled under the FULL resolved colour `properties.color` and nothing else is computed
+    from it (`backendColor`; C18-m4 breaks this); `apply_color_policy` splits alpha and RGB, maps the RGB part policy by policy
+    and re-attaches the alpha, CUSTOM replacing both (`applyColorPolicy`); `Ellipse.from_arc` takes ALL DXF attributes of the
+    ARC/CIRCLE except owner, handle, thickness - so the invisible flag survives the non-uniform scaling route (C18-m5 breaks
+    this); `Insert.transform` multiplies the MINSERT spacings by the SIGNED ratios of the scale factors (`transformIns`,
+    `minsert_spacing_sign`; C18-m6 breaks this); the explode fall-back for polylines with arcs hands the invisible flag to
+    the parts (fix 2a9e6bc5a); `resolve_visible` returns early only for INSERT, for a 3DFACE WITHOUT a visible edge, and for
+    VIEWPORT (fix bb5ad742d, `resolveVisibleFace`) -/
+theorem tie_pipeline_and_routes :
+    Gen.RenderShape.colorCacheKeys = ["properties.color", "properties.color"] ∧ Gen.RenderShape.colorCacheAssigns = [] ∧
+    Gen.RenderShape.colorPolicyFrame = ["alpha = color[7:9]", "color = color[:7]", "return color + alpha"] ∧
+    Gen.RenderShape.colorPolicyChain = ["policy == ColorPolicy.COLOR_SWAP_BW => color = swap_bw(color)",
+      "policy == ColorPolicy.COLOR_NEGATIVE => color = invert_color(color)",
+      "policy == ColorPolicy.MONOCHROME_DARK_BG => color = color_to_monochrome(color, scale=0.7, offset=0.3)",
+      "policy == ColorPolicy.MONOCHROME_LIGHT_BG => color = color_to_monochrome(color, scale=0.7, offset=0.0)",
+      "policy == ColorPolicy.MONOCHROME => color = color_to_monochrome(color)",
+      "policy == ColorPolicy.BLACK => color = '#000000'", "policy == ColorPolicy.WHITE => color = '#ffffff'",
+      "policy == ColorPolicy.CUSTOM => fg = custom_color; color = fg[:7]; alpha = fg[7:9]", "else => "] ∧
+    Gen.RenderShape.fromArcAttribs = ["entity.dxfattribs(drop={'owner', 'handle', 'thickness'})"] ∧
+    Gen.RenderShape.spacingUpdates = ["dxf.column_spacing *= target_system.scale_factor_x / dxf.xscale",
+      "dxf.row_spacing *= target_system.scale_factor_y / dxf.yscale"] ∧
+    Gen.RenderShape.polylineFallback = ["invisible = entity.dxf.get('invisible', 0)", "parts = list(entity.virtual_entities())",
+      "if invisible:", "yield from transform(parts)"] ∧
+    Gen.RenderShape.resolveVisibleHead = ["isinstance(entity, Insert) => return not bool(entity.dxf.invisible)",
+      "isinstance(entity, Face3d) and (not any(entity.get_edges_visibility())) => return False",
+      "isinstance(entity, Viewport) => return entity.is_visible"] := by
   decide +kernel
 
 end EzdxfVerif.Props.C18
